@@ -43,7 +43,7 @@ CHECKS = {
         note="at() itself is C02's subject; KF1 and folded-constant rounding excuses as in C05.",
         ref="DESIGN.md section 4 C07"),
     "C08": dict(
-        technique=PBT + " with one template per rewrite rule; metamorphic oracle on EVERY rewrite step (50-digit values, domain preservation, exact Fraction identity on the rational fragment); thorough tier adds atheris coverage-guided fuzzing of the same property",
+        technique="exhaustive small-scope enumeration (all depth-3 skeletons, towers, n-ary mid-level shapes) + " + PBT + " with one template per rewrite rule and every constructor pair; metamorphic oracle on EVERY rewrite step (50-digit values, domain preservation, exact Fraction identity on the rational fragment); thorough tier adds atheris coverage-guided fuzzing of the same property",
         text="The harness drives _take_reduction_step itself and checks every step, the normal-form pass and end-to-end _normalize() (incl. budget-exhausting 300-900 node inputs): defined input point => defined, equal-valued output.",
         note="Uses the private stepping entry points the repository's tests use; KF1 steps identified by their redex (root of even power, both even).",
         ref="DESIGN.md section 4 C08"),
@@ -53,14 +53,14 @@ CHECKS = {
         note="Fresh copy replays only route-determining history of a derivative object; KF2 (shape of budget-exhausted results) compared by value only.",
         ref="DESIGN.md section 4 C09"),
     "C10": dict(
-        technique="model-based stateful testing (Hypothesis RuleBasedStateMachine); invariant = creation-time snapshots of every pooled object after every step",
+        technique="model-based stateful testing (Hypothesis RuleBasedStateMachine) + exhaustive small-scope enumeration; invariant = creation-time snapshots of every pooled object / every sub-expression object after every operation",
         text="After every operation every pooled expression, point and derivative object must still equal, print as, hash as and evaluate like a fresh copy of its creation-time model.",
         note="Structure is read through the private child attributes.",
         ref="DESIGN.md section 4 C10"),
     "C11": dict(
         technique="exhaustive small-scope enumeration (depth-3 skeletons over all constructors) + " + PBT + "; invariant over the rewrite trace",
         text="From every enumerated/generated input the step trace never repeats a form, stays within s^2+10s+50 steps and 3s+10 nodes, ends in a form on which no rule fires, and inputs of <= 20 nodes never trigger the library's step-budget warning.",
-        note="Quick tier enumerates a 1/16 slice of binary-parent skeletons (all others completely); thorough enumerates all ~470k.",
+        note="Quick tier enumerates a VERIF_SEED-chosen 1/16 slice of the binary-parent and n-ary-mid skeletons (all other blocks completely); thorough enumerates all ~540k.",
         ref="DESIGN.md section 4 C11"),
     "C12": dict(
         technique=PBT + " over pairs/triples incl. one-change siblings; oracle = independently written canonical-model equality",
